@@ -40,8 +40,7 @@ def collect_apps(formulas, names):
                 if n in out and t.decl().kind() == z3.Z3_OP_UNINTERPRETED and t.num_args() > 0:
                     out[n].append(t)
             todo.extend(t.children())
-        elif z3.is_quantifier(t):
-            todo.append(t.body())
+        # quantifier bodies are not searched: their terms contain bound variables
     return out
 
 
@@ -73,6 +72,141 @@ def instantiate_axioms(world, formulas, rounds=3):
             break
         axioms.extend(new)
     return axioms
+
+
+# --------------------------------------------------------------------------
+# explicit E-matching for user quantifiers (hypothesis side only)
+# --------------------------------------------------------------------------
+def _ground_apps(formulas):
+    """All ground application terms outside quantifier bodies, keyed by (decl kind, decl name)."""
+    out = {}
+    seen = set()
+    todo = list(formulas)
+    while todo:
+        t = todo.pop()
+        if not z3.is_expr(t) or z3.is_quantifier(t) or z3.is_var(t):
+            continue
+        i = t.get_id()
+        if i in seen:
+            continue
+        seen.add(i)
+        if z3.is_app(t) and t.num_args() > 0:
+            out.setdefault((t.decl().kind(), t.decl().name()), []).append(t)
+            todo.extend(t.children())
+    return out
+
+
+def _match(pat, ground, binding):
+    """Match a pattern term (with de Bruijn vars) against a ground term; extends binding {var index: term}."""
+    if z3.is_var(pat):
+        idx = z3.get_var_index(pat)
+        if idx in binding:
+            return binding if binding[idx].eq(ground) else None
+        if pat.sort() != ground.sort():
+            return None
+        b = dict(binding)
+        b[idx] = ground
+        return b
+    if not z3.is_app(pat) or not z3.is_app(ground):
+        return None
+    if pat.num_args() == 0:
+        return binding if pat.eq(ground) else None
+    if pat.decl().kind() != ground.decl().kind() or pat.decl().name() != ground.decl().name() or pat.num_args() != ground.num_args():
+        return None
+    for pa, ga in zip(pat.children(), ground.children()):
+        binding = _match(pa, ga, binding)
+        if binding is None:
+            return None
+    return binding
+
+
+def _instances(q, apps, limit=64):
+    n = q.num_vars()
+    if q.num_patterns() == 0:
+        return None
+    results = []
+    for pi in range(q.num_patterns()):
+        pats = q.pattern(pi).children()
+        bindings = [{}]
+        for p in pats:
+            cands = apps.get((p.decl().kind(), p.decl().name()), []) if z3.is_app(p) else []
+            nb = []
+            for b in bindings:
+                for g in cands:
+                    b2 = _match(p, g, b)
+                    if b2 is not None:
+                        nb.append(b2)
+            bindings = nb
+            if len(bindings) > 4 * limit:
+                bindings = bindings[: 4 * limit]
+        seen = set()
+        for b in bindings:
+            if len(b) != n:
+                continue
+            key = tuple(b[i].get_id() for i in range(n))
+            if key in seen:
+                continue
+            seen.add(key)
+            results.append(z3.substitute_vars(q.body(), *[b[i] for i in range(n)]))
+            if len(results) >= limit:
+                break
+    return results
+
+
+def _inst_pos(t, apps, pos=True):
+    """Replace ForAll in positive positions (hypothesis strength) by the conjunction of its pattern instances."""
+    if z3.is_quantifier(t):
+        if t.is_forall() and pos:
+            inst = _instances(t, apps)
+            if inst is None:
+                return t
+            return z3.And(*inst) if inst else z3.BoolVal(True)
+        return t
+    if not z3.is_app(t) or t.num_args() == 0 or not z3.is_bool(t):
+        return t
+    k = t.decl().kind()
+    ch = t.children()
+    if k == z3.Z3_OP_AND:
+        return z3.And(*[_inst_pos(c, apps, pos) for c in ch])
+    if k == z3.Z3_OP_OR:
+        return z3.Or(*[_inst_pos(c, apps, pos) for c in ch])
+    if k == z3.Z3_OP_NOT:
+        return z3.Not(_inst_pos(ch[0], apps, not pos))
+    if k == z3.Z3_OP_IMPLIES:
+        return z3.Implies(_inst_pos(ch[0], apps, not pos), _inst_pos(ch[1], apps, pos))
+    if k == z3.Z3_OP_ITE and len(ch) == 3 and z3.is_bool(ch[1]):
+        return z3.If(ch[0], _inst_pos(ch[1], apps, pos), _inst_pos(ch[2], apps, pos))
+    return t
+
+
+def has_quantifier(formulas):
+    seen = set()
+    todo = list(formulas)
+    while todo:
+        t = todo.pop()
+        if z3.is_quantifier(t):
+            return True
+        if not z3.is_expr(t):
+            continue
+        i = t.get_id()
+        if i in seen:
+            continue
+        seen.add(i)
+        todo.extend(t.children())
+    return False
+
+
+def ematch(base, rounds=2):
+    """base: list of formulas (hypotheses and the negated goal).  Quantified hypotheses are replaced by their
+    instances on the ground terms present (weaker hypotheses: a proof found this way is a proof)."""
+    cur = list(base)
+    for _ in range(rounds):
+        apps = _ground_apps(cur)
+        nxt = [_inst_pos(f, apps, True) for f in base]
+        if all(a.eq(b) for a, b in zip(nxt, cur)):
+            break
+        cur = nxt
+    return cur
 
 
 def uses_sequences(formula) -> bool:
@@ -119,6 +253,13 @@ def solve_formula(world, hyps, goal, timeout_s=30.0, want_model=True, use_cvc5=T
     """
     t0 = time.time()
     base = list(hyps) + [z3.Not(goal)]
+    if has_quantifier(hyps):
+        # first try with the quantified hypotheses replaced by their pattern instances (quantifier-free for the
+        # solver); only an `unsat` is taken from this weakened query
+        weak = ematch(base)
+        v, solver, secs, _, reason0 = solve_formula(world, weak[:-1], z3.Not(weak[-1]), timeout_s, False, use_cvc5)
+        if v == "unsat":
+            return "unsat", solver + "+ematch", time.time() - t0, None, ""
     ax = instantiate_axioms(world, base)
     s = z3.Solver()
     s.set("timeout", int(min(3.0, timeout_s) * 1000))
@@ -166,6 +307,8 @@ def solve_formula(world, hyps, goal, timeout_s=30.0, want_model=True, use_cvc5=T
 def run_cvc5(smt2: str, timeout_s: float, produce_model=False):
     txt = smt2
     txt = re.sub(r"\(set-info :status [a-z]+\)", "", txt)
+    # z3-internal names for in-range / out-of-range element access; cvc5's seq.nth is total and unspecified out of range
+    txt = txt.replace("seq.nth_i", "seq.nth").replace("seq.nth_u", "seq.nth")
     head = "(set-logic ALL)\n"
     if produce_model:
         head = "(set-option :produce-models true)\n" + head
